@@ -4,6 +4,7 @@ import (
 	"fmt"
 	"sync"
 
+	"github.com/AdguardTeam/urlfilter"
 	"github.com/AdguardTeam/urlfilter/rules"
 
 	"verifharness/internal/core"
@@ -197,13 +198,13 @@ func init() {
 		c07BuildBig()
 	})
 	tripleCases := map[core.Tier]int{core.Quick: 64, core.Thorough: 60000}
-	selCases := map[core.Tier]int{core.Quick: 400, core.Thorough: 200000}
+	selCases := map[core.Tier]int{core.Quick: 3000, core.Thorough: 300000}
 	core.Register(&core.Prop{
 		ID:    "C07",
 		Level: "exploration",
 		Rule: fmt.Sprintf("pool = every combination of the features the comparison reads (exception x important x 4 $domain shapes x 5 content-type shapes x third-party x match-case x $dnstype x $ctag x $client x $denyallow, plus rules carrying 10..16 modifiers (all content types and more), = %d rules); "+
 			"exhaustive over the pool: irreflexivity, asymmetry and agreement with class order / specific-over-generic for all ordered pairs, add-one-modifier => strictly higher for every rule; "+
-			"transitivity of > and of incomparability on all triples of PRNG-drawn 90-rule subsets; selection maximality for candidate lists of 2..5 rules in all permutations through NewMatchingResult and GetDNSBasicRule; "+
+			"transitivity of > and of incomparability on all triples of PRNG-drawn 90-rule subsets; selection maximality for candidate lists of 2..5 rules in all permutations through NewMatchingResult and GetDNSBasicRule, and through NetworkEngine.Match / Engine.MatchRequest with the candidates spread over the three lookup tables; "+
 			"non-trivial = pool rule compared against the whole pool (its ordered pairs are counted in events.ordered_pairs), triple subset, or candidate list; distinct by the rule texts involved", len(c07Pool)),
 		Assumptions: []string{
 			"'exhaustive' is relative to the pool; document-level options are excluded from add-a-modifier because they replace the content-type set",
@@ -282,6 +283,8 @@ func init() {
 				c.Eval(n * n * n)
 				c.NonTrivial(core.Hash64("triples", sub[0].Text, sub[1].Text, sub[2].Text, sub[n-1].Text))
 				c.Event("triples", n*n*n)
+			case idx%2 == 0:
+				c07EngineSelection(c)
 			default:
 				// Selection maximality over all permutations.
 				k := 2 + c.Rng.Intn(4)
@@ -357,4 +360,86 @@ func permute(n int, f func(p []int)) {
 		}
 	}
 	rec(0)
+}
+
+// c07EngineSelection checks selection maximality through the engines, with the
+// candidates spread over the three lookup tables (long shortcut; any-URL
+// shortcut + $domain; regular expression / short pattern without $domain): the
+// rule returned by NetworkEngine.Match, Engine.MatchRequest and
+// DNSEngine.MatchRequest must not be outranked by any rule of MatchAll.
+func c07EngineSelection(c *core.Ctx) {
+	k := 2 + c.Rng.Intn(4)
+	var lines []string
+	for len(lines) < k {
+		base := c07Pool[c.Rng.Intn(len(c07Pool))].Spec
+		// Every candidate has to match the one request below.
+		restrictedOnly := len(base.Domains) > 0 && !c07Specific(base)
+		if restrictedOnly || len(base.TypesP) > 6 || len(base.TypesR) > 4 {
+			continue
+		}
+		okTypes := true
+		for _, t := range base.TypesR {
+			okTypes = okTypes && t != "script"
+		}
+		if len(base.TypesP) > 0 {
+			has := false
+			for _, t := range base.TypesP {
+				has = has || t == "script"
+			}
+			okTypes = okTypes && has
+		}
+		if !okTypes {
+			continue
+		}
+		s := base.Clone()
+		s.Pattern = []string{"||x.com^", "||x.com^", "|https://", "/x\\.com/", "x.c", "https://x.com/"}[c.Rng.Intn(6)]
+		if s.MatchCase && s.Pattern == "/x\\.com/" {
+			s.MatchCase = false
+		}
+		lines = append(lines, s.Render(c.Rng))
+	}
+	req := rules.NewRequest("https://x.com/", "https://d.com/", rules.TypeScript)
+	req.DNSType = 1
+	req.ClientIP = gen.ClientNets[0].Prefix.Addr()
+	req.SortedClientTags = []string{"device_pc"}
+	nl := 1 + c.Rng.Intn(3)
+	parts := make([][]string, nl)
+	for _, l := range util.Shuffle(c.Rng, lines) {
+		i := c.Rng.Intn(nl)
+		parts[i] = append(parts[i], l)
+	}
+	var contents []string
+	for _, p := range parts {
+		contents = append(contents, util.Lines(p))
+	}
+	ne := urlfilter.NewNetworkEngine(util.Storage(contents...))
+	eng := urlfilter.NewEngine(util.Storage(contents...))
+	all := ne.MatchAll(req)
+	c.Eval(1)
+	if len(all) < 2 {
+		c.Event("engine_selection_fewer_than_two_candidates", 1)
+
+		return
+	}
+	check := func(via string, w *rules.NetworkRule) {
+		c.Eval(1)
+		if w == nil {
+			c.Violation("no-winner:"+via, nil, lines, "%s selected nothing although %d rules match: %v", via, len(all), util.Texts(all))
+
+			return
+		}
+		for _, o := range all {
+			if o.IsHigherPriority(w) {
+				c.Violation("winner-outranked:"+via, nil, map[string]any{"lists": contents, "winner": w.RuleText, "outranked_by": o.RuleText, "via": via},
+					"%s selected %q although the matching rule %q outranks it (lists %q)", via, w.RuleText, o.RuleText, contents)
+
+				return
+			}
+		}
+	}
+	w1, _ := ne.Match(req)
+	check("NetworkEngine.Match", w1)
+	check("Engine.MatchRequest", eng.MatchRequest(req).BasicRule)
+	c.NonTrivial(core.Hash64(append([]string{"engine-sel"}, lines...)...))
+	c.Event("engine_selection_lists", 1)
 }
